@@ -943,7 +943,9 @@ func (self *ReplicationClient) ProcessReplayLock() {
 		if err == nil && aofLock.AofIndex != self.replayAofIndex {
 			self.glock.Lock()
 			if aof.isWaitRewite {
-				_ = aof.ExecuteConsistencyBarrierCommand(0)
+				// the replay pipeline has just moved on to this record's file: the files below it are
+				// complete in the channels, whatever the append pipeline has rotated to meanwhile
+				_ = aof.ExecuteConsistencyBarrierCommand(0, aofLock.AofIndex)
 				aof.isWaitRewite = false
 				self.manager.slock.Log().Infof("Replication ready wait aof execute rewrite")
 			}
@@ -987,7 +989,7 @@ func (self *ReplicationClient) ProcessAofAppend() {
 		if aof.AppendLock(aofLock) {
 			self.glock.Lock()
 			if self.replayAofIndex >= aof.aofFileIndex {
-				aof.ExecuteConsistencyBarrierCommand(0)
+				aof.ExecuteConsistencyBarrierCommand(0, aof.aofFileIndex)
 				aof.isWaitRewite = false
 				self.manager.slock.Log().Infof("Replication ready wait aof execute rewrite")
 			}
